@@ -25,7 +25,7 @@ ASSUMPTIONS = ["window detection uses the harness' own PCHIP midpoint drives (sc
 
 
 def budget(tier):
-    return {"cases": 96 if tier == "quick" else 1200, "shards": 16, "wall": 900 if tier == "quick" else 3300}
+    return {"cases": 96 if tier == "quick" else 1200, "shards": 16, "wall": 900 if tier == "quick" else 1200}  # a single 20-atom grid case can take ~30 min: the deadline is checked between cases
 
 
 @st.composite
